@@ -323,7 +323,18 @@ func (g *c09Gen) action() bool {
 	var stmts []*ast.Node
 	label := ""
 	g.cur = &st
-	switch k := g.n(0, 25, "action"); {
+	switch k := g.n(0, 26, "action"); {
+	case k == 26:
+		// a match case binds the name of a variable for the time of its body (an expression or
+		// a block); afterwards an assignment to that name addresses the variable again
+		v := c09Vars[g.n(0, 1, "mv")]
+		body := ast.Bin("+", ast.Id(v), ast.Id("mw"))
+		if g.b("mblock") {
+			body = ast.Block(ast.ExprS(ast.Set(ast.Id(v), ast.Num("50"))))
+		}
+		stmts = append(stmts, ast.ExprS(ast.Set(ast.Id("tmp"), ast.Match(ast.Arr(ast.Num("10"), ast.Num("20")), ast.Case(body, ast.Arr(ast.Id(v), ast.Id("mw")))))),
+			ast.ExprS(ast.Set(ast.Id(v), ast.Arr(ast.Id(v), ast.Num("1")))), ast.ExprS(ast.Set(ast.Idx(ast.Id(v), ast.Num("1")), ast.Id("tmp"))))
+		label = "assign-after-match-bound-the-name"
 	case k <= 1:
 		v := c09Vars[g.n(0, len(c09Vars)-1, "v")]
 		stmts = append(stmts, ast.ExprS(ast.Set(ast.Id(v), g.value(st.Globals))))
